@@ -37,7 +37,7 @@ func init() {
 			"x colour schemes {dark, light, basic, no_colour, --no-style, NO_COLOR} through the real CLI; plus the model's ANSI stripper against klog's on generated strings. evaluations = CLI runs; non-trivial: document with at least 2 records and a tag; distinct = distinct texts",
 		Count: func(tier string) int {
 			if tier == "thorough" {
-				return 60000
+				return 12000
 			}
 			return 900
 		},
